@@ -54,6 +54,15 @@ DotV(ex, W) == DotVFrom(ex, W, 1)
 \*   int    python int n                     frac   fractions.Fraction(n, d)
 \*   sym    sympy.Rational(n, d)             float  the float n/d
 \*   dec2   the float written with two decimals ("0.33")
+\* spellings whose VALUE as a float is not the rational they are read as (the reading is the exponent of the
+\* expression and of the dimension; the scale has to be raised to the same reading):
+\*   dec7   the float written with seven decimals (0.3333333)       f32   numpy.float32(n/d)
+\*   f16    numpy.float16(n/d) (only for n/d whose shortest float16 spelling is n/d: tenths, dyadics)
+\*   np64   numpy.float64(n/d)           dcm   decimal.Decimal with seven decimals
+\*   str    the string "n/d"             strd  the string with seven decimals ("0.3333333")
+\* For these Rational(str(p)).limit_denominator() is n/d when d <= 9 (or d = 10 for one-digit decimals) and |n/d| < 2:
+\* a fraction a/b, b <= 10**6, other than n/d is at least 1/(9 * 10**6) > 2 * 5e-8 away.  The pools keep to that.
+ReadKinds == {"dec7", "f32", "f16", "np64", "dcm", "str", "strd"}
 \* Unit.__pow__ : p = Rational(str(p)).limit_denominator()   (max denominator 10**6)
 Eff(e) == IF e.kind = "dec2" THEN Norm((2 * e.n * 100 + e.d) \div (2 * e.d), 100) ELSE Norm(e.n, e.d)
 Ex(n, d, kind) == [n |-> n, d |-> d, kind |-> kind]
@@ -307,14 +316,18 @@ LawOk(W, pr) ==
     /\ a.dim = b.dim /\ a.off = b.off /\ pr.serr <= LawTol
     /\ W.exact => (a.lg = b.lg /\ a.neg = b.neg)
     /\ pr.eq /\ pr.eqr
+    \* (asked with the other operator of the same relation: "a != b" is the negation of "a == b")
+    /\ ~pr.ne /\ ~pr.ner
 \* C05_Eq: equality is decided by scale, offset and dimension only
 EqSemOk(W, pr) ==
   PairBoth(W, pr) =>
     LET a == W.regs[pr.i] b == W.regs[pr.j]
         same3 == a.dim = b.dim /\ a.off = b.off /\ pr.serr <= LawTol
         diff3 == a.dim # b.dim \/ a.off # b.off \/ pr.serr >= FarTol IN
-    /\ same3 => (pr.eq /\ pr.eqr)
-    /\ diff3 => (~pr.eq /\ ~pr.eqr)
+    /\ same3 => (pr.eq /\ pr.eqr /\ ~pr.ne /\ ~pr.ner)
+    /\ diff3 => (~pr.eq /\ ~pr.eqr /\ pr.ne /\ pr.ner)
+    \* equality is ONE relation: whatever == answers (also between the two tolerances), != answers the opposite
+    /\ pr.ne = ~pr.eq /\ pr.ner = ~pr.eqr
 \* C05_Hash: the same expression in the same registry state hashes equally
 HashOk(W, pr) ==
   PairBoth(W, pr) =>
